@@ -243,6 +243,15 @@ def verify_unit(vc_path, tier='quick', with_vacuity=True, rlimit=None, keep=True
         info = r.obligations.get(base, {'props': sorted(set(u.props) | set(u.encprops)), 'text': ''})
         r.failed[oid] = {'base': base, 'message': msg, 'rendered': d.get('rendered', ''), 'props': info['props'],
                          'text': info.get('text', ''), 'fn': base_fn}
+    # a function whose loop invariants / proof text no longer go through is not in a state to be judged: its other
+    # failing obligations (e.g. an overflow check inside the restructured loop, or the postcondition that the broken
+    # invariant was supposed to carry) are artefacts of the broken proof, so they are undecided as well
+    broken = {fn for (fn, _m) in r.undecided if fn}
+    for oid in list(r.failed):
+        f = r.failed[oid]
+        if f['fn'] in broken or any(f['fn'].startswith(b + '/') or b.startswith(f['fn'] + '/') for b in broken):
+            r.undecided.append((f['fn'], 'obligation %s not discharged in a function whose proof text is broken: %s' % (oid, f['message'])))
+            del r.failed[oid]
     if not r.canary_rejected:
         raise InfraError('unit %s: the vacuity canary (`ensures false`) was NOT rejected: the unit is inconsistent, nothing it proves is trusted' % u.name)
     n_expected = len([f for f in em.functions if not f['external_body']])
